@@ -129,10 +129,21 @@ def step_to_coq2(step: str) -> str:
     raise ValueError(step)
 
 
+def resolve_keep(steps):
+    """`mk:` = the interface does not rewrite Context::mav for this message: it still holds what was last written"""
+    last = "0"; res = []
+    for st in steps:
+        if st.startswith("mk:"): st = "m" + last + st[2:]
+        elif st[0] == "m": last = st[1]
+        res.append(st)
+    return res
+
+
 def coq_term(line: str) -> str:
     """full-stack model on the raw bytes; when every message is covered by the template table the operation-level
     model (the one the theorems are stated for) is evaluated too and must agree"""
     steps = [s for s in line.split(" ", 1)[1].split("|") if s]
+    steps = resolve_keep(steps)
     full = coq_list([step_to_coq2(s) for s in steps])
     try:
         ops = coq_list([step_to_coq(s) for s in steps])
@@ -143,7 +154,7 @@ def coq_term(line: str) -> str:
 
 def msg_step(units, mav=False, nl=False):
     m = b";".join(units) + (b"\n" if nl else b"")
-    return "m%d:%s" % (1 if mav else 0, hexs(m))
+    return "m%s:%s" % ("k" if mav is None else "1" if mav else "0", hexs(m))
 
 
 def rand_u16(rng):
@@ -218,7 +229,7 @@ def gen_history(rng, nsteps, weights, common_pool=None):
                 if j > 0 and not u.startswith((b"*", b":")):
                     u = b":" + u          # a later unit is relative unless it starts at the root
                 units.append(u)
-            steps.append(msg_step(units, mav=rng.random() < 0.4, nl=rng.random() < 0.2))
+            steps.append(msg_step(units, mav=None if rng.random() < 0.2 else rng.random() < 0.4, nl=rng.random() < 0.2))
     return "dev " + "|".join(steps)
 
 
